@@ -1,5 +1,6 @@
 """C07 — replay is path-independent (thin structural clauses only)."""
 from ..prims import *
+from ..guards import check_strength
 from ..guards import find_guard, side_tokens
 
 EXPLANATION = (
@@ -172,6 +173,8 @@ def run(ctx):
         f = prog.fn(path)
         st, detail = find_guard(prog, f, enum, variant, ta, tb)
         rep.check(st == "ok", "C07.R2", "guard:%s:%s:%s" % (f.name, variant, "+".join(sorted(ta))), detail, "%s — %s" % (st, detail), site=f.loc())
+        if st == "ok":
+            check_strength(rep, "C07.R2", "guard:%s:%s:%s" % (f.name, variant, "+".join(sorted(ta))), "C07", prog, f, enum, variant, ta, tb)
     ar = prog.fn(PS + "advance_replay_state")
     ap = ar.call_sites(r"apply_to_worldline_state$")
     rep.check(len(ap) == 1, "C07.R2", "advance:applies-recorded-patch", "advance applies the recorded patch", "advance no longer applies the recorded patch (%d sites)" % len(ap), site=ar.loc())
